@@ -11,6 +11,7 @@ package main
 //@ poolinv ipfixBuffer x: iskind(x, bytes) && typeid(x) == tyof([]byte) && len(anybytes(x)) == opts.IPFIXUDPSize && cap(anybytes(x)) >= opts.IPFIXUDPSize
 
 //@ func (*IPFIX).ipfixWorker
+//@   names i wQuit decodedMsg mirror msg buf err ok b d
 //@   opt ownership datagram, mirror and encode buffers: released or handed-over buffers are not touched again; published values are fresh copies
 //@   requires opts != nil && opts.IPFIXUDPSize >= 0
 //@   opt nonterminating
@@ -26,6 +27,7 @@ package main
 //@ poolinv netflowV9Buffer x: iskind(x, bytes) && typeid(x) == tyof([]byte) && len(anybytes(x)) == opts.NetflowV9UDPSize && cap(anybytes(x)) >= opts.NetflowV9UDPSize
 
 //@ func (*NetflowV9).netflowV9Worker
+//@   names i wQuit decodedMsg msg buf err ok b d
 //@   opt ownership datagram, mirror and encode buffers: released or handed-over buffers are not touched again; published values are fresh copies
 //@   requires opts != nil && opts.NetflowV9UDPSize >= 0
 //@   opt nonterminating
@@ -41,6 +43,7 @@ package main
 //@ poolinv netflowV5Buffer x: iskind(x, bytes) && typeid(x) == tyof([]byte) && len(anybytes(x)) == opts.NetflowV5UDPSize && cap(anybytes(x)) >= opts.NetflowV5UDPSize
 
 //@ func (*NetflowV5).netflowV5Worker
+//@   names i wQuit decodedMsg msg buf err ok b d
 //@   opt ownership datagram, mirror and encode buffers: released or handed-over buffers are not touched again; published values are fresh copies
 //@   requires opts != nil && opts.NetflowV5UDPSize >= 0
 //@   opt nonterminating
@@ -55,6 +58,7 @@ package main
 //@ poolinv sFlowBuffer x: iskind(x, bytes) && typeid(x) == tyof([]byte) && len(anybytes(x)) == opts.SFlowUDPSize && cap(anybytes(x)) >= opts.SFlowUDPSize
 
 //@ func (*SFlow).sFlowWorker
+//@   names s wQuit reader msg mirror ok b d datagram err
 //@   opt ownership datagram, mirror and encode buffers: released or handed-over buffers are not touched again; published values are fresh copies
 //@   requires opts != nil && opts.SFlowUDPSize >= 0
 //@   opt nonterminating
@@ -69,6 +73,7 @@ package main
 // ---- receive loops: every datagram handed to the workers satisfies the channel invariant -------------
 
 //@ func (*IPFIX).run
+//@   names i hostPort udpAddr _ conn err n wQuit p err b n raddr err
 //@   requires opts != nil && opts.IPFIXUDPSize >= 0 && opts.IPFIXUDPSize <= 1048576
 //@   opt nonterminating
 //@   modifies i, mCache, ipfix.InfoModel
@@ -80,6 +85,7 @@ package main
 //@     step [received] (sends_ipfixUDPCh == iter(sends_ipfixUDPCh) + 1 && i.stats.UDPCount == (iter(i.stats.UDPCount) + 1) % 18446744073709551616) || (sends_ipfixUDPCh == iter(sends_ipfixUDPCh) && i.stats.UDPCount == iter(i.stats.UDPCount))
 
 //@ func (*NetflowV9).run
+//@   names i hostPort udpAddr _ conn err n wQuit p err b n raddr err
 //@   requires opts != nil && opts.NetflowV9UDPSize >= 0
 //@   opt nonterminating
 //@   modifies i, mCacheNF9
@@ -91,6 +97,7 @@ package main
 //@     step [received] (sends_netflowV9UDPCh == iter(sends_netflowV9UDPCh) + 1 && i.stats.UDPCount == (iter(i.stats.UDPCount) + 1) % 18446744073709551616) || (sends_netflowV9UDPCh == iter(sends_netflowV9UDPCh) && i.stats.UDPCount == iter(i.stats.UDPCount))
 
 //@ func (*NetflowV5).run
+//@   names i hostPort udpAddr _ conn err n wQuit p err b n raddr err
 //@   requires opts != nil && opts.NetflowV5UDPSize >= 0
 //@   opt nonterminating
 //@   modifies i
@@ -102,6 +109,7 @@ package main
 //@     step [received] (sends_netflowV5UDPCh == iter(sends_netflowV5UDPCh) + 1 && i.stats.UDPCount == (iter(i.stats.UDPCount) + 1) % 18446744073709551616) || (sends_netflowV5UDPCh == iter(sends_netflowV5UDPCh) && i.stats.UDPCount == iter(i.stats.UDPCount))
 
 //@ func (*SFlow).run
+//@   names s err hostPort udpAddr _ i wQuit p err b n raddr err
 //@   requires opts != nil && opts.SFlowUDPSize >= 0 && opts.SFlowUDPSize <= 1048576
 //@   opt nonterminating
 //@   modifies s
@@ -129,6 +137,7 @@ package main
 //@     && (forall k :: 0 <= k && k < len(body) ==> b[28 + k] == body[k])
 
 //@ func mirrorIPFIX
+//@   names dst port ch _ packet msg pLen err ipHdr ipHLen ipv4 ip conn udp udpHdr
 //@   requires opts != nil && opts.IPFIXUDPSize >= 0 && opts.IPFIXUDPSize <= 1048576 && mirrorMsgs(ch)
 //@   opt nonterminating
 //@   opt allocbound 1048624   // the configured maximum datagram size plus headers (configuration, not a wire field)
@@ -141,6 +150,7 @@ package main
 //@     invariant udpHdr[0]*256 + udpHdr[1] == 55117 && udpHdr[2]*256 + udpHdr[3] == port % 65536
 
 //@ func mirrorIPFIXDispatcher
+//@   names ch ch4 ch6 msg w dst
 //@   requires opts != nil && opts.IPFIXUDPSize >= 0 && opts.IPFIXUDPSize <= 1048576 && mirrorMsgs(ch)
 //@   opt nonterminating
 //@   modifies ipfixMirrorEnabled
@@ -151,6 +161,7 @@ package main
 //@     invariant opts != nil && opts == old(opts) && mirrorMsgs(ch) && mirrorMsgs(ch4) && mirrorMsgs(ch6)
 
 //@ func mirrorSFlow
+//@   names dst port ch _ packet msg pLen err ipHdr ipHLen ipv4 ip conn udp udpHdr
 //@   requires opts != nil && opts.SFlowUDPSize >= 0 && opts.SFlowUDPSize <= 1048576 && mirrorMsgsSF(ch)
 //@   opt nonterminating
 //@   opt allocbound 1048624   // the configured maximum datagram size plus headers (configuration, not a wire field)
@@ -163,6 +174,7 @@ package main
 //@     invariant udpHdr[0]*256 + udpHdr[1] == 55118 && udpHdr[2]*256 + udpHdr[3] == port % 65536
 
 //@ func mirrorSFlowDispatcher
+//@   names ch ch4 ch6 msg w dst
 //@   requires opts != nil && opts.SFlowUDPSize >= 0 && opts.SFlowUDPSize <= 1048576 && mirrorMsgsSF(ch)
 //@   opt nonterminating
 //@   modifies sFlowMirrorEnabled
@@ -190,6 +202,7 @@ package main
 
 // getEnv: VFLOW_<KEY> (upper-cased yaml key, '-' -> '_') replaces the current value (reflection: trusted, bounded check in the thorough tier)
 //@ func (*Options).getEnv
+//@   names opts r i key value ve v err v err
 //@   opt noverify reflection over the struct fields
 //@   ensures [trusted.Verbose] opts.Verbose == (envHas("verbose") ? envB("verbose") : old(opts.Verbose))
 //@   ensures [trusted.LogFile] opts.LogFile == (envHas("log-file") ? envS("log-file") : old(opts.LogFile))
@@ -240,6 +253,7 @@ package main
 
 // loadCfg: a key present in the configuration file replaces the current value (yaml.Unmarshal: trusted)
 //@ func (*Options).loadCfg
+//@   names opts file i flag b err
 //@   opt noverify yaml.Unmarshal into the struct
 //@   ensures [trusted.Verbose] opts.Verbose == (fileHas("verbose") ? fileB("verbose") : old(opts.Verbose))
 //@   ensures [trusted.LogFile] opts.LogFile == (fileHas("log-file") ? fileS("log-file") : old(opts.LogFile))
@@ -290,6 +304,7 @@ package main
 
 // flagSet: command line > configuration file > environment > built-in default, for every registered setting
 //@ func (*Options).flagSet
+//@   names opts config
 //@   exitassert [Verbose] opts.Verbose == (cliHas("verbose") ? cliB("verbose") : (fileHas("verbose") ? fileB("verbose") : (envHas("verbose") ? envB("verbose") : old(opts.Verbose))))
 //@   exitassert [LogFile] opts.LogFile == (cliHas("log-file") ? cliS("log-file") : (fileHas("log-file") ? fileS("log-file") : (envHas("log-file") ? envS("log-file") : old(opts.LogFile))))
 //@   exitassert [PIDFile] opts.PIDFile == (cliHas("pid-file") ? cliS("pid-file") : (fileHas("pid-file") ? fileS("pid-file") : (envHas("pid-file") ? envS("pid-file") : old(opts.PIDFile))))
